@@ -87,26 +87,29 @@ def r4(ctx: Ctx) -> None:
     #     not(max(ll) < min(ur)) on either axis
     fa, fm = ctx.func(GEOM, R + "area_overlap"), ctx.func(GEOM, R + "__mul__")
     ca, cm = canon_function(fa, m), canon_function(fm, m)
-    ga = [st for st in ca if st[0] == "if"]
-    gm = [st for st in cm if st[0] == "if"]
-    ctx.site(fa.where, "empty-intersection guard of area_overlap vs __mul__")
-    if len(ga) != 1 or len(gm) != 1:
-        raise AnalysisError("C18/R4: expected one merged guard in area_overlap and in __mul__")
+    ctx.site(fa.where, "non-empty-intersection condition of area_overlap vs __mul__")
+    from framelint.peval import paths, value_expr
+    from framelint.canon import mk_and, K_NONE
 
-    def disj(c):
-        return set(c[1]) if c[0] == "or" else {c}
-    da, dm = disj(ga[0][1]), disj(gm[0][1])
+    def live(block, empty, what):
+        """conjuncts of the one path condition under which the function does not give the empty answer"""
+        alive = [lits for lits, out in paths(block, fall=K_NONE) if out != empty]
+        if len(alive) != 1:
+            raise AnalysisError(f"C18/R4: {what}: expected exactly one path with a non-empty answer, found {len(alive)}")
+        c = mk_and(list(alive[0]))
+        return set(c[1]) if c[0] == "and" else {c}
+    da, dm = live(ca, k_num(0), "area_overlap"), live(cm, K_NONE, "__mul__")
     region_test = {d for d in dm if contains(d, "region")}
     if da != dm - region_test or len(da) != 2:
         ctx.report(fa.where, "empty-guard " + " | ".join(sorted(show(x) for x in da ^ (dm - region_test))),
                    "area_overlap and __mul__ disagree on when two rectangles have no common region",
                    lineno=fa.node.lineno, area_overlap=[show(x) for x in da], mul=[show(x) for x in dm])
-    # the guard itself: not (max(ll.a, ll.b) < min(ur.a, ur.b)) per axis
+    # the condition itself: max(ll.a, ll.b) < min(ur.a, ur.b) per axis (the empty answer for max(lows) >= min(highs))
     for d in sorted(da, key=skey):
-        ctx.site(fa.where, "emptiness guard is 'max(lows) >= min(highs)'", guard=show(d))
+        ctx.site(fa.where, "non-emptiness is 'max(lows) < min(highs)'", guard=show(d))
         good = False
-        if d[0] == "not" and d[1][0] == "lt0":
-            p = to_poly(d[1][1])
+        if d[0] == "lt0":
+            p = to_poly(d[1])
             pos = [a for mono, c in p.t.items() if c == 1 for a, _ in mono]
             neg = [a for mono, c in p.t.items() if c == -1 for a, _ in mono]
             if len(p.t) == 2 and len(pos) == 1 and len(neg) == 1:
@@ -121,32 +124,27 @@ def r4(ctx: Ctx) -> None:
         f = ctx.func(GEOM, R + q)
         c = canon_function(f, m)
         ctx.site(f.where, f"{q}: refuses cut <= low or >= high; thinner piece > ratio * other side")
-        guards = [st for st in c if st[0] == "if" and st[2] and st[2][-1] == ("ret", ("k", "bool", False))]
+        val = value_expr(c)
+        if val is None:
+            raise AnalysisError(f"C18/R4: {q} is not a chain of guards and returns")
+        have = set(val[1]) if val[0] == "and" else {val}
         ll = ("a", ("a", ("a", ("self",), "bounding_box"), "ll"), axis)
         ur = ("a", ("a", ("a", ("self",), "bounding_box"), "ur"), axis)
         cut = ("p", 0)
-        need = {mk_not(mk_lt(ll, cut)), mk_not(mk_lt(cut, ur))}
-        have = set()
-        for g in guards:
-            have |= (set(g[1][1]) if g[1][0] == "or" else {g[1]})
+        need = {mk_lt(ll, cut), mk_lt(cut, ur)}
         if not need <= have:
             ctx.report(f.where, "cuttable-border " + " | ".join(sorted(show(x) for x in need - have)),
                        f"{q} does not refuse a coordinate on or outside the rectangle border", lineno=f.node.lineno)
-        ret = _ret_of(c)
         dist_lo = (to_poly(cut) - to_poly(ll)).to_s()
         dist_hi = (to_poly(ur) - to_poly(cut)).to_s()
         side = ("a", ("a", ("self",), "shape"), other)
         ratio = ("p", 1)
         thr = (to_poly(ratio) * to_poly(side)).to_s()
-        ok = False
-        if ret is not None:
-            mn = ("c", ("g", "min"), tuple(sorted([dist_lo, dist_hi], key=skey)), ())
-            form1 = mk_lt(thr, mn)
-            from framelint.canon import mk_and
-            form2 = mk_and([mk_lt(thr, dist_lo), mk_lt(thr, dist_hi)])
-            ok = ret in (form1, form2)
+        mn = ("c", ("g", "min"), tuple(sorted([dist_lo, dist_hi], key=skey)), ())
+        rest = have - need
+        ok = rest == {mk_lt(thr, mn)} or rest == {mk_lt(thr, dist_lo), mk_lt(thr, dist_hi)}
         if not ok:
-            ctx.report(f.where, f"cuttable-sliver {show(ret) if ret is not None else 'no return'}",
+            ctx.report(f.where, "cuttable-sliver " + " & ".join(sorted(show(x) for x in rest))[:200],
                        f"{q}: the sliver test is not 'min(cut - low, high - cut) > ratio * {other}'", lineno=f.node.lineno)
 
 
@@ -403,11 +401,10 @@ def r6(ctx: Ctx) -> None:
     # area_overlap value == product of the overlap extents
     fa = ctx.func(GEOM, R + "area_overlap")
     ca = normalize(Canon(fa, ctx.model, CanonOptions(inline_properties={"Rectangle.bounding_box"})).function(), keep_identity=False)
-    ret = None
-    for st in ca:
-        if st[0] == "ret":
-            ret = st[1]
-    ctx.require(ret is not None, "area_overlap: no final return")
+    from framelint.peval import paths
+    vals = [out for lits, out in paths(ca) if out != k_num(0)]
+    ctx.require(len(vals) == 1, "area_overlap: expected one path with a non-zero answer")
+    ret = vals[0]
     ext = []
     for cpar, spar in [("x", "w"), ("y", "h")]:
         def bound(obj, sign):
